@@ -73,6 +73,30 @@ def check_refit(case):
         db = R.same_fingerprint(got, _fp(entry, built, data, Xb, yb, seed), exact=entry.exact)
         require(db is None, "refit:differs-from-newly-built" if step > 0 else "fit:differs-from-newly-built",
                 "after the history the instance differs from an object newly built with the same configuration and fitted on the same data: %s" % db, f2)
+        # trained through fit_transform (the entry point a Pipeline uses for every step but the last): the same model as through fit.
+        # (Whether the ARRAY fit_transform returns equals transform(X) is a per-class statement - C06, C14, C15, C19 check it where their
+        # property says what transform returns; it is not part of this one: ConstraintKMeans.transform returns squared distances while the
+        # inherited fit_transform returns distances, see BUILDLOG.)
+        if step == 0 and "transform" in entry.methods and entry.kind != "target" and hasattr(inst, "fit_transform"):
+            ft = R.build(case["spec2"] if current == 1 else case["spec"])
+            Xt, yt, wt = R.materialize(data)
+            np.random.seed(seed)
+            try:
+                if entry.kind in ("cluster", "nmf", "text", "frame"):
+                    out_ft = ft.fit_transform(entry._with_columns(ft, Xt) if hasattr(entry, "_with_columns") else Xt)
+                elif wt is not None and entry.uses_weights:
+                    out_ft = ft.fit_transform(Xt, yt, sample_weight=wt)
+                else:
+                    out_ft = ft.fit_transform(Xt, yt)
+            except Exception as e:  # noqa: BLE001
+                from vf.core import repo_frame
+                if repo_frame(e) is None:
+                    out_ft = None          # refused by scikit-learn itself (a transformer without y, ...): not this statement's business
+                else:
+                    raise
+            if out_ft is not None:
+                dft = R.same_fingerprint(got, _fp(entry, ft, data, Xt, yt, seed), exact=entry.exact)
+                require(dft is None, "fit_transform:other-model-than-fit", "an object trained through fit_transform differs from one trained through fit on the same data: %s" % dft, f2)
         # another instance of the same class fitted on OTHER data under another seed (two models alive in one process): what this
         # instance answers is its own business - module- or class-level state shared between instances shows here
         j = (i + 1) % len(case["datasets"])
